@@ -1,13 +1,15 @@
 (* C07 — Shifting an ID is modular translation on the grid.
    Only statements, `exact` proofs and Print Assumptions live here. Models and proofs: theories/Shift.v (integer model, shared),
-   theories/ShiftF.v (the float layer), theories/DC07.v (run-time checkers).
+   theories/ShiftF.v (the float layer), theories/GenC07.v (the float layer over the maxIndex regenerated from the Go source),
+   theories/DC07.v (run-time checkers).
    All theorems are statements about the Coq models.  Two models of operated.GetShiftingSpatialID exist:
      shift_api    — integers only; the wrap is the closed form `s mod 2^h` (what the other properties build on);
      shift_api_f  — the executable twin that goes through the same binary64 operations as the Go code (math.Pow(2,h), float64(int64),
                     math.Mod, int64(float64)) and the same repeated-addition loop; THIS one is run side by side with the Go code.
    C07_float_layer_exact ties the two on the property's quantifier; C07_float_layer_refuted shows where the tie ends (x + dx > 2^53). *)
 From Coq Require Import ZArith String List Lia.
-From SID Require Import Base Str Ids Wire Shift ShiftF DC07.
+From SIDGen Require GeneratedF.
+From SID Require Import Base Str Ids Wire Shift ShiftF DC07 GenC07.
 Import ListNotations.
 Open Scope Z_scope.
 
@@ -42,6 +44,49 @@ Theorem C07_float_layer_refuted : exists fuel i d h, 0 <= h <= 35 /\ 0 <= i < 2 
   wrap_f fuel i d h = Some 0 /\ (i + d) mod 2 ^ h = 1.
 Proof. exact wrap_f_refuted. Qed.
 Print Assumptions C07_float_layer_refuted.
+
+(* (3g) THE SAME RESULTS OVER THE DEFINITION REGENERATED FROM THE GO SOURCE.  GeneratedF.GetShiftingSpatialID_maxIndex x y v hZoom is written
+   by the translator on every run from operated/shifting_spatial_id.go: the local `maxIndex := int64(math.Pow(2, float64(hZoom)) - 1)` as a
+   function of the parameters and hZoom.  wrap_with mx is the wrap of the twin with its guard bound as an argument (wrap_f = wrap_with
+   (max_index_f h) by definition); shift_api_g is the API twin whose two wraps take GeneratedF's maxIndex.  An edit of that expression in
+   /repo changes GeneratedF and breaks these theorems.  (Not regenerated: the addition loop, int64(math.Mod(..)), reading/printing the ID.) *)
+(* the generated maxIndex is exactly the last index 2^h - 1 of the grid, for every zoom 0..52 (the library's zooms are 0..35) *)
+Theorem C07_generated_maxIndex_is_last_index : forall x y v h, 0 <= h <= 52 ->
+  GeneratedF.GetShiftingSpatialID_maxIndex x y v h = Some (2 ^ h - 1).
+Proof. exact max_index_g_exact. Qed.
+Print Assumptions C07_generated_maxIndex_is_last_index.
+(* the wrap guarded by the generated maxIndex computes (i + d) mod 2^h whenever i + d <= 2^53, for any sufficient fuel of the loop *)
+Theorem C07_generated_wrap_exact : forall x y v fuel i d h, 0 <= h <= 52 -> i + d <= 2 ^ 53 ->
+  addloop fuel (i + d) (2 ^ h) <> None ->
+  wrap_with (GeneratedF.GetShiftingSpatialID_maxIndex x y v h) fuel i d h = Some ((i + d) mod 2 ^ h).
+Proof. exact wrap_g_exact. Qed.
+Print Assumptions C07_generated_wrap_exact.
+(* the API twin over the generated maxIndex is modular translation for -4094 * 2^h <= x + dx <= 2^53 (likewise y), never refused ... *)
+Theorem C07_generated_float_layer_exact_wide : forall i dx dy dv, valid i ->
+  - 4094 * 2 ^ eh i <= ex i + dx <= 2 ^ 53 -> - 4094 * 2 ^ eh i <= ey i + dy <= 2 ^ 53 ->
+  shift_api_g (print_eid i) dx dy dv = Some (print_eid (shift_spec i dx dy dv)).
+Proof. exact shift_api_g_exact. Qed.
+Print Assumptions C07_generated_float_layer_exact_wide.
+(* ... in particular on the property's quantifier |dx|, |dy| <= 4 * 2^h *)
+Theorem C07_generated_float_layer_exact : forall i dx dy dv, valid i -> Z.abs dx <= 4 * 2 ^ eh i -> Z.abs dy <= 4 * 2 ^ eh i ->
+  shift_api_g (print_eid i) dx dy dv = Some (print_eid (shift_spec i dx dy dv)).
+Proof. exact shift_api_g_quantifier. Qed.
+Print Assumptions C07_generated_float_layer_exact.
+(* it is, on every input (any string, any shift), the twin that is run side by side with the Go code *)
+Theorem C07_generated_twin_is_the_executed_twin : forall id dx dy dv, shift_api_g id dx dy dv = shift_api_f id dx dy dv.
+Proof. exact shift_api_g_eq. Qed.
+Print Assumptions C07_generated_twin_is_the_executed_twin.
+(* and the tie ends at the same place: beyond 2^53 the wrap guarded by the generated maxIndex returns 0 where the exact answer is 1 *)
+Theorem C07_generated_float_layer_refuted : exists x y v fuel i d h, 0 <= h <= 35 /\ 0 <= i < 2 ^ h /\ 2 ^ 53 < i + d /\
+  wrap_with (GeneratedF.GetShiftingSpatialID_maxIndex x y v h) fuel i d h = Some 0 /\ (i + d) mod 2 ^ h = 1.
+Proof. exact wrap_g_refuted. Qed.
+Print Assumptions C07_generated_float_layer_refuted.
+(* non-vacuity: the generated maxIndex at the extreme zooms; the generated twin wraps at the grid edge and through the loop *)
+Example C07_nonvacuous_generated :
+  GeneratedF.GetShiftingSpatialID_maxIndex 1 (-1) 0 0 = Some 0 /\ GeneratedF.GetShiftingSpatialID_maxIndex 0 0 0 35 = Some 34359738367 /\
+  valid (mk 3 7 0 4 (-16)) /\ shift_api_g "3/7/0/4/-16" 2 (-1) 5 = Some "3/1/7/4/-11"%string /\
+  shift_api_g "3/7/0/4/-16" (-32) 31 0 = Some "3/7/7/4/-16"%string.
+Proof. split; [vm_compute; reflexivity|]. split; [vm_compute; reflexivity|]. split; [unfold valid; cbn; lia|]. split; vm_compute; reflexivity. Qed.
 
 (* (4) the returned string is again an ID with the same zooms, inside the horizontal range, vertical index advanced by dv
    (vshift_ok: the new vertical index is an int64 — the property's own restriction) *)
